@@ -1049,8 +1049,15 @@ func TestVerifC12(t *testing.T) {
 					doc["descriptor_map"] = toAny(env.entries)
 				}
 				correct, _ := json.Marshal(doc)
-				o, _ := validate(correct)
 				single := strings.HasPrefix(env.name, "single/")
+				if single {
+					// the wallet's resulting submission exactly as the node marshals it
+					correct, _ = json.Marshal(sub)
+					var asDoc map[string]any
+					_ = json.Unmarshal(correct, &asDoc)
+					doc = asDoc
+				}
+				o, _ := validate(correct)
 				if !single && o == "rejected" && len(env.entries) > 0 {
 					// array envelopes are never produced by the node's own wallet; the harness writes their submission per the
 					// PEX specification. A presentation inside an array is addressed as ldp_vp by this implementation even when it is a JWT.
